@@ -231,3 +231,18 @@ def spec_eval(ctx, fits, known, kinds):
     except SPanic as x:
         return ("panic", str(x)), h
     return r, h
+
+
+def spec_excluded(ctx, kinds):
+    """the operand kinds that parse_spec_constant_op never hands to the generic operand parser (evaluated: the nested opcode's row
+    contains the kind; it is skipped or the instruction is rejected)"""
+    def build():
+        out = set()
+        for k in kinds:
+            r, h = spec_eval(ctx, True, True, [k, "IdRef"])
+            if isinstance(r, tuple) and r and r[0] == "panic":
+                continue
+            if not any(c == ("operand", k) for c in h.consumed):
+                out.add(k)
+        return out
+    return ctx.memo("quantx_spec_excluded:" + ",".join(sorted(kinds)), build)
